@@ -39,6 +39,97 @@ CHECKS = {
                      "compared at AST and at text-between-fences level, rest of the document against the content model",
                 note="finite atom alphabet; tags without outer blanks; never generates a nested fence (documented error)",
                 tech="exhaustive enumeration of zone contents x placements x pipelines against the generator's model"),
+    "C06": dict(level="model_checking", engine="E6 process matrix + virtual asyncio loop (vt/env/procmatrix.py, vt/env/aioloop.py)",
+                text="state = (configuration, calls already served by the process); every transition (one tool/API call) is executed on the "
+                     "real code and compared byte-for-byte (timestamps masked) with the reference run of the same call alone in a fresh "
+                     "process: full product PYTHONHASHSEED x cwd (two directories with identical schemas, and /) x locale over 270 calls; every "
+                     "ordered pair of a 40-call (thorough 80) alphabet in long-lived workers; every ready-handle order of 2 (thorough 3) "
+                     "concurrently scheduled tool tasks on a virtual event loop against the sequential results",
+                note="timestamps masked by key name; OS-thread interleavings inside one interpreter are not enumerated (DESIGN.md §7)",
+                tech="explicit enumeration of configurations x ordered call pairs x event-loop schedules on the implementation, differential "
+                     "against a fresh-process reference (stateless model checking)"),
+    "C08": dict(level="exploration", engine=E1,
+                text="all ordered chains of <=3 (thorough 4) atoms over a 33-atom constraint pool x 58 values on the real ConstraintChain; chains "
+                     "of <=2 atoms also through a generated schema file + instance + octave_validate; document-level rules over schema policies x "
+                     "instance shapes; oracles: composition (valid(chain) == no documented conflict and every member accepts) and an "
+                     "independent three-valued reference semantics per constraint kind",
+                note="where the documentation does not determine a verdict the reference says UNSPEC and the case is not compared",
+                tech="exhaustive enumeration of constraint programs x values against an independent reference semantics"),
+    "C09": dict(level="exploration", engine=E1,
+                text="34 instance variants of a generated schema (valid; invalid in each single way) x every lenient rendering (site product up "
+                     "to the bound, singles+all-on beyond, thorough all pairs) + canonical(x) + canonical(canonical(x)) x 4 profiles x 4 entry "
+                     "points; identical (status, {(code, field)}) for all spellings, canonical text unchanged with fix off, idempotent envelopes",
+                note="respellings are the documented lenient freedoms; the reference outcome is the canonical rendering's",
+                tech="exhaustive enumeration of respellings per (schema, instance); metamorphic equality of verdicts"),
+    "C10": dict(level="exploration", engine=E1,
+                text="full product of tool arguments (content class x schema argument x profile x every flag/mode/format) for octave_validate, "
+                     "octave_write, octave_eject, octave_compile_grammar and the CLI; invariants on every envelope: status present and one of the "
+                     "documented values, VALIDATED only when a schema of that name exists (own directory scan) and no error-severity finding, "
+                     "UNVALIDATED otherwise, INVALID iff errors",
+                note="LENIENT/ULTRA profiles downgrade by design; W_STRUCT salvage wraps are readable content (DESIGN.md §6)",
+                tech="exhaustive enumeration of the argument product; envelope invariants"),
+    "C11": dict(level="exploration", engine=E1,
+                text="2 generated schemas x every perturbation of every field value (all case variants of ENUM members, prefixes, numeric strings "
+                     "in every notation, wrong kinds) x 8 placements single and repeated + missing/extra-field documents through repair(), "
+                     "octave_validate fix on/off, octave_write lenient+schema and `octave validate --fix`; structural diff before/after "
+                     "reconciled with the repair log",
+                note="lossless text-to-number means Decimal equality; the property restricts the kind of change, not its location",
+                tech="exhaustive enumeration of value perturbations x placements; diff/log reconciliation oracle"),
+    "C12": dict(level="exploration", engine=E1,
+                text="single-field schemas = 30 names x (every constraint atom + 24 REGEX patterns + 2-member chains), two-field schemas = all "
+                     "ordered pairs of names, consecutive compilations in one process, through 7 grammar-returning routes; every grammar is read "
+                     "by an independent reader of llama.cpp grammar syntax (root defined, every reference defined, no rule twice, no empty alternative)",
+                note="llama.cpp grammar syntax as implemented by its parser (vt/oracles/gbnf.py)",
+                tech="exhaustive enumeration of schema programs; independent GBNF recogniser as oracle"),
+    "C13": dict(level="exploration", engine=E1,
+                text="for every decided chain (CONST/ENUM/BOOLEAN/NUMBER/DATE/ISO8601 alone or with REQ/OPT) the compiled field rule is "
+                     "interpreted by an independent GBNF derivation enumerator and ALL derivations within the bound are read by the real reader and "
+                     "judged by the field's own chain",
+                note="ws derived as empty; NUMBER up to k digits (adaptive budget), DATE/ISO8601 over a per-position digit sub-alphabet",
+                tech="bounded exhaustive enumeration of grammar derivations, replayed against the validator"),
+    "C14": dict(level="exploration", engine=E1,
+                text="model documents (6 filter-key shapes x every pool value, duplicate keys, sections, zones, holographic, S(3,3)) x 4 modes x 4 "
+                     "formats through octave_eject (one process, fixed order) and `octave eject`; leaf multisets extracted independently from "
+                     "each output are a sub-multiset of the source model's and lossy is true iff something was removed",
+                note="JSON/YAML cannot tell a block from an inline map; markdown compared on leaf paths only",
+                tech="exhaustive enumeration of documents x modes x formats; independent leaf extraction"),
+    "C15": dict(level="exploration", engine=E1,
+                text="for every model document: seal->verify in memory / after text round trip / sealed twice / after every cosmetic respelling; "
+                     "EVERY single-site content mutation (leaf replaced by same- and other-type value, key renamed, node deleted/duplicated/"
+                     "moved/re-nested, META field, envelope name, frontmatter, each hash digit) must verify INVALID; unsealed -> NO_SEAL; same "
+                     "through `octave seal` / `octave validate --verify-seal --require-seal`",
+                note="comment edits are not generated as tampering (not among the sealed content kinds)",
+                tech="exhaustive enumeration of single-site mutations and respellings per document"),
+    "C16": dict(level="fault_enumeration", engine="E5 libc interposer (vt/fsshim)",
+                text="the real write path (WriteTool, atomic_write_octave, `octave write`) runs in a child under an LD_PRELOAD libc interposer; "
+                     "EVERY file-system call boundary of the fault-free run is taken as kill point, power-loss point (unsynced data lost, "
+                     "un-fsynced rename may or may not persist) and injected failure for 5 errnos, plus second deviations (fault then fault/"
+                     "kill) as a deviation tree; oracle from the supervising process: target is complete old or complete new bytes, errors "
+                     "leave bytes+mode unchanged and no temp sibling, success implies sha256(file)==canonical_hash",
+                note="the interposer sees every libc file call of the child; kernel-internal non-atomicity outside the model",
+                tech="exhaustive fault/crash-point enumeration (deviation-bounded, 2 deviations) on the implementation"),
+    "C17": dict(level="model_checking", engine="E5 libc interposer stepper + E7 virtual asyncio loop",
+                text="(a) explicit-state BFS over the product of a register reference model and the real tool: every event (content/changes/"
+                     "normalize, each also dry, 4 external modifications) x base_hash {none,current,stale,future} from every reachable "
+                     "state, plus literal histories <=3 in one process; (b) two writer processes with the same base_hash stepped at every "
+                     "visible libc operation on the target - ALL interleavings with state merging, at most one success, file = winner's bytes; "
+                     "(c) all ready-handle orders of 2 tool tasks; failed and dry calls leave the whole directory tree untouched",
+                note="base_hash on an absent file is UNSPECIFIED; writers share only the file system",
+                tech="explicit-state model checking: reference register model x implementation, all two-process schedules at libc call granularity"),
+    "C18": dict(level="exploration", engine=E1,
+                text="base documents x every single change request {own top-level keys + 2 fresh} x {DELETE, null, 14 values} for body keys, "
+                     "META.X and META{..}, all ordered request sequences <=k, multi-key requests; Absent at every AST position; oracle: frame "
+                     "condition via an independent chunker (unnamed chunks byte-identical, same order), exact read-back of named keys; routes "
+                     "WriteTool and `octave write --changes`",
+                note="dict values compared on merged pairs; requests naming a block are outside the property's quantifier",
+                tech="exhaustive enumeration of change requests and short request sequences; frame-condition oracle"),
+    "C19": dict(level="exploration", engine="E5 libc interposer (vt/fsshim) + " + E1,
+                text="ALL path strings of depth <=d over {sub, ., .., link_in, link_out, '', newdir} x 15 final names x absolute/relative x 9 "
+                     "operations run in a child under the interposer, which records every path handed to open/mkdir/rename/unlink; all schema "
+                     "names <=n over 16 characters; frozen@ references; source URIs; oracle: an independent string classifier says MUST refuse "
+                     "=> refused AND no create/replace/remove/open-for-write outside (or at) the refused path",
+                note="upper-case extensions, '.oct.md', over-long names are UNSPECIFIED: only containment is required there",
+                tech="exhaustive enumeration of path strings with system-call-level observation"),
     "C07": dict(level="exploration", engine=E1,
                 text="for every model document every combination of options at its receipt-bearing rewrite sites (full product up to 8 sites) is "
                      "rendered with exact positions, with and without all other lenient freedoms; multiset equality between injected rewrites and "
@@ -56,7 +147,7 @@ CHECKS = {
 }
 
 checks = []
-for pid, c in CHECKS.items():
+for pid, c in sorted(CHECKS.items()):
     checks.append({
         "property_id": pid, "quick_cmd": f"./check {pid} quick", "thorough_cmd": f"./check {pid} thorough",
         "evidence_file": f"evidence/{pid}.json", "replay_cmd_template": f"./check {pid} --replay {{path}}", "engine": c["engine"],
@@ -66,7 +157,7 @@ for pid, c in CHECKS.items():
 
 m = {
     "version": 1,
-    "setup_cmd": "true",
+    "setup_cmd": "make -C vt/fsshim",
     "hooks": {
         "guard": "ELEVANALTD_OCTAVE_MCP_VERIF",
         "enable": "no source hooks are needed: checks import /repo/src directly (PYTHONPATH=/repo/src) and drive public functions; "
@@ -82,6 +173,15 @@ m = {
          "serves_properties": [p for p in ("C01", "C02", "C03", "C05", "C07") if p in CHECKS],
          "kind_free_text": "independent content model of documents, canonical/lenient renderers with site enumeration and receipt ground truth"},
         {"name": "E3 token alphabets", "path": "vt/tokens.py", "serves_properties": ["C01", "C07", "C20"], "kind_free_text": "token-sequence spaces"},
+        {"name": "E4 independent oracles", "path": "vt/oracles/", "serves_properties": ["C03", "C08", "C12", "C13", "C14", "C18"],
+         "kind_free_text": "strict-profile recogniser, three-valued constraint semantics, GBNF reader + derivation enumerator, leaf extraction, chunker"},
+        {"name": "E5 libc interposer", "path": "vt/fsshim/", "serves_properties": ["C16", "C17", "C19"],
+         "kind_free_text": "LD_PRELOAD shim over libc file calls: log / inject errno at call k (two fault points) / _exit at call k / "
+                           "step-by-step scheduling of two processes; fork-per-execution controller"},
+        {"name": "E6 process matrix", "path": "vt/env/procmatrix.py", "serves_properties": ["C06"],
+         "kind_free_text": "worker processes under a chosen (PYTHONHASHSEED, cwd, locale) serving call sequences; byte comparison"},
+        {"name": "E7 virtual asyncio loop", "path": "vt/env/aioloop.py", "serves_properties": ["C06", "C17"],
+         "kind_free_text": "BaseEventLoop subclass that enumerates every order of ready handles (stateless DFS over choice prefixes)"},
     ],
     "checks": checks,
     "not_applicable": [{"property_id": p["id"], "reason": "check under construction in this round; it will be claimed when its exhaustive explorer is registered"}
